@@ -620,11 +620,12 @@ macro_rules! wrap_impl_uint {
                 }
                 fn pingpong(self, upper: Self) -> Self {
                     assert!(upper > Self::zero());
-                    let r = self % (upper+upper);
-                    if r < upper {
+                    // NOTE: Not `self % (upper+upper)`: `upper+upper` may overflow.
+                    let r = self % upper;
+                    if (self / upper) % (Self::one() + Self::one()) == Self::zero() {
                         r
                     } else {
-                        upper+upper-r
+                        upper - r
                     }
                 }
             }
@@ -636,15 +637,23 @@ macro_rules! wrap_impl_sint {
         $(
             impl Wrap for $T {
                 // https://stackoverflow.com/a/707426
-                fn wrapped_between(mut self, lower: Self, upper: Self) -> Self {
+                fn wrapped_between(self, lower: Self, upper: Self) -> Self {
                     assert!(lower < upper);
                     assert!(lower >= Self::zero());
                     assert!(upper > Self::zero());
                     let range_size = upper - lower /*+ Self::one()*/;
-                    if self < lower {
-                        self += range_size * ((lower-self)/range_size + Self::one());
+                    // NOTE: Work on remainders, so that no intermediate value overflows
+                    // (`lower - self` and `range_size * n` may, for values far below `lower`).
+                    let mut r = self % range_size;
+                    if r < Self::zero() {
+                        r += range_size;
                     }
-                    lower + (self - lower) % range_size
+                    let l = lower % range_size;
+                    if r >= l {
+                        lower + (r - l)
+                    } else {
+                        lower + ((r - l) + range_size)
+                    }
                 }
                 fn wrapped(self, upper: Self) -> Self {
                     assert!(upper > Self::zero());
@@ -652,11 +661,15 @@ macro_rules! wrap_impl_sint {
                 }
                 fn pingpong(self, upper: Self) -> Self {
                     assert!(upper > Self::zero());
-                    let r = self.wrapped(upper+upper);
-                    if r <= upper {
-                        r
+                    // NOTE: Not `self.wrapped(upper+upper)`: `upper+upper` may overflow.
+                    let two = Self::one() + Self::one();
+                    let r = self % upper;
+                    let is_quotient_even = (self / upper) % two == Self::zero();
+                    if r < Self::zero() {
+                        // The floored quotient is one less than the truncated one.
+                        if is_quotient_even { Self::zero() - r } else { r + upper }
                     } else {
-                        upper+upper-r
+                        if is_quotient_even { r } else { upper - r }
                     }
                 }
             }
